@@ -9,7 +9,9 @@ UNIV = ["1", "(+ 0 1)", "1.0", "1.0s0", "2", "2.5", "0", "0.0", "-3", "-3.0",
         "1180591620717411303424", "(* 2 590295810358705651712)", "1/2", "(/ 2 4)",
         '"abc"', '(copy-seq "abc")', '"ABC"', "'sym", "'sym", ":kw", "#\\a", "#\\A",
         "(list 1 2)", "(list 1 2)", "(list 1 2.0)", "(vector 1 2)", "(vector 1 2)", "nil", "t", '""',
-        '(list "a" (list 1))', '(list "A" (list 1.0))', "9007199254740993", "9007199254740992.0d0", "9007199254740992"]
+        '(list "a" (list 1))', '(list "A" (list 1.0))', "9007199254740993", "9007199254740992.0d0", "9007199254740992",
+        # (appended: the indices above are used by KEYSETS / COERCE) complex numbers without an imaginary part, a ratio and the float next to it
+        "5", "#C(5 0)", "5.0", "#C(5.0 0.0)", "1/3", "(/ 1.0d0 3)", "0.5", "(list 5 1/2)", "(list #C(5 0) 0.5)"]
 TYPES = ["t", "number", "real", "rational", "integer", "fixnum", "bignum", "ratio", "float", "single-float", "double-float", "string",
          "symbol", "keyword", "character", "list", "cons", "null", "sequence", "vector", "array", "atom"]
 COERCE = [[0, "float"], [0, "double-float"], [0, "single-float"], [2, "integer"], [5, "rational"], [12, "float"], [10, "float"],
